@@ -119,6 +119,30 @@ def units():
                                   ('swap__r' + V4, ['C01', 'C02', 'C05', 'C06', 'C07'], [b + '__swap_impl__r' + b])]:
                 add('vec4.%s.%s.%s' % (m.split('__')[0] + '_' + m.split('__')[1][:4], et, sz), V4 + '__' + m, props, 1, b, sz, elem, replace=rep)
                 us[-1]['defs']['VEC_N'] = '4'
+    # ---- amc::Vector constructors, destructor, copy assignment per flavour (callees inlined; the base-class pieces have their own units)
+    VECS = {'small': (1, 'SmallVectorBase_E_A_%s', 'Vector_E_A_%s_Dyn_4', '4', 'A'), 'std': (2, 'StdVectorBase_E_A_%s', 'Vector_E_A_%s_Dyn_0', '0', 'A'),
+            'static': (3, 'StaticVectorBase_E_%s', 'Vector_E_X_%s_Exc_4', '4', 'X')}
+    for elem in ('ElemNR', 'ElemTR'):
+        et = ELEM_TAG[elem]
+        for sz in ('u8',):
+            for fl, (fnum, bpat, vpat, vn, al) in VECS.items():
+                V = vpat % sz
+                CP = ['C01', 'C02', 'C05', 'C06', 'C07', 'C08', 'C09', 'C18']
+                for m, props, thr in [('ctor__v', ['C01', 'C02', 'C05', 'C06', 'C07'], False), ('ctor__r' + al, ['C01', 'C02', 'C05', 'C06', 'C07'], False),
+                                      ('ctor__%s_r%s' % (sz, al), CP, True), ('ctor__%s_rE_r%s' % (sz, al), CP + ['C10'], True),
+                                      ('ctor__initializer_list_E_r' + al, CP, True),
+                                      ('ctor__r' + V, CP, True), ('ctor__r%s_r%s' % (V, al), CP, True),
+                                      ('ctor__rr' + V, ['C01', 'C02', 'C05', 'C06', 'C07'], False), ('ctor__rr%s_r%s' % (V, al), ['C01', 'C02', 'C05', 'C06', 'C07'], False),
+                                      ('dtor__v', ['C02', 'C06'], False), ('op_assign__r' + V, CP, True)]:
+                    pp = [p for p in props if not (fl == 'static' and p in ('C06', 'C18')) and not (fl == 'std' and p == 'C05')]
+                    short = m.replace('__', '_').replace(V, 'V')
+                    add('vec.%s.%s.%s.%s' % (short, fl, et, sz), V + '__' + m, pp, fnum, bpat % sz, sz, elem, throws_reachable=thr)
+                    us[-1]['defs']['VEC_N'] = vn
+                for kind, opn in (('copy', 'op_assign__r' + V), ('move', 'op_assign__rr' + V)):
+                    add('vec.self_assign_%s.%s.%s.%s' % (kind, fl, et, sz), 'self_assign', [p for p in ['C01', 'C02', 'C05', 'C06', 'C07'] if not (fl == 'static' and p == 'C06') and not (fl == 'std' and p == 'C05')],
+                        fnum, bpat % sz, sz, elem, throws_reachable=False, extra_source='harness/self_assign.c',
+                        proto='struct %s *self_assign(struct %s *self)' % (V, V), extra_reach=[V + '__' + opn])
+                    us[-1]['defs'].update({'VEC_N': vn, 'VEC_T': 'struct ' + V, 'SELF_ASSIGN_FN(a, b)': V + '__' + opn + '(a, b)'})
     # ---- C15: amc:: emulations of the memory algorithms (configurations before C++17)
     for m in ['destroy_n__pE_u8', 'destroy_n__pE_i32', 'destroy__pE_pE', 'memory_details__uninitialized_copy_n_impl__pE_i32_pE_Default', 'memory_details__uninitialized_move_n_impl__pE_u8_pE_Default',
               'memory_details__uninitialized_relocate_n_impl__pE_u8_pE_Default',
